@@ -207,10 +207,13 @@ def idle_world(a_lifetime=100000, b_lifetime=100000, a_dpd=DPD, b_dpd=3600, a_hi
     c = S.base_confs(a_over={'dpd': a_dpd, 'lifetime': a_lifetime}, b_over={'dpd': b_dpd, 'lifetime': b_lifetime})
     CTX.uniform_hi = a_hi
     try:
-        w = S.established(c)
+        w = S.new_world(c)
+        w.sent_log, w.recv_log = [], []
+        w.step(('acquire', 'A', 0, 0))
+        w.deliver_all()
+        w.history = []
     finally:
         CTX.uniform_hi = False
-    w.sent_log, w.recv_log = [], []
     return w
 
 
@@ -241,11 +244,21 @@ def run_dpd(offset, peer):
                              % (idle, DPD)))
         if peer == 'answering' and k == offset:
             w.step(('due', 'B', 0, 'dpd'))
+        if peer == 'silent-with-noise' and k % 3 == 0:
+            # unauthenticated datagrams carrying the IKE_SA's SPIs (a replayed IKE_SA_INIT response, a forged header, a
+            # datagram whose checksum fails): they are not authentic input and must not postpone dead-peer detection
+            sa0 = next((s for s in w.endpoints['A'].controller.ike_sas), None)
+            if sa0 is not None:
+                from harness import forge as F
+                noise = [d.data for d in w.sent_log if d.data[18] == 34 and d.data[19] & 0x20][-1:]
+                noise.append(F.clear(bytes(sa0.spi_i), bytes(sa0.spi_r), 37, 0x20, sa0.my_msg_id))
+                noise.append(F.clear(bytes(sa0.spi_i), bytes(sa0.spi_r), 37, 0x00, sa0.peer_msg_id, [(F.SK, b'\x33' * 64)]))
+                w.step(('inject', 'A', noise[(k // 3) % len(noise)], S.IP_B))
         guard = 0
         while w.net:
             guard += 1
             d = w.net[0]
-            if d.sender == 'A' and peer == 'silent':
+            if d.sender == 'A' and peer.startswith('silent'):
                 w.step(('drop', d.id))
                 continue
             dst_a = d.dst == S.IP_A
@@ -266,7 +279,7 @@ def judge_dpd(obs, peer):
     out = list(obs['problems'][:1])
     if not obs['probes']:
         out.append(('no-probe', 'idle IKE_SA never probed its peer (dpd=%d)' % DPD))
-    if peer == 'silent':
+    if peer.startswith('silent'):
         budget = DPD + 20 + 2
         if obs['gone_at'] is None or obs['gone_at'] > budget + 0.001:
             out.append(('dead-peer-not-detected', 'silent peer: IKE_SA gone at %s, allowed %.0f' % (obs['gone_at'], budget)))
@@ -352,6 +365,7 @@ def dpd_cases():
     for off in range(0, DPD + 3):
         yield ('dpd', off, 'answering')
     yield ('dpd', 0, 'silent')
+    yield ('dpd', 0, 'silent-with-noise')
     for a_hi in (False, True):
         for peer in ('answering', 'silent', 'collides'):
             yield ('life', a_hi, peer)
